@@ -1279,4 +1279,61 @@ theorem roundtrip_full_false : ¬ roundtrip_full := by
   rw [hs] at this
   exact absurd this (by decide)
 
+/-- Is this response header one supplied by the entity (`HName.ent`)? -/
+def isEntHeader (p : HName × HVal) : Bool :=
+  match p.1 with
+  | .ent _ => true
+  | _ => false
+
+theorem entExact_filter_common (e : Ent) (now : Nat) :
+    (commonHeaders e now).filter isEntHeader = [] := by
+  cases hm : e.mtime <;> cases he : e.etag <;> simp [commonHeaders, hm, he, isEntHeader]
+
+theorem entExact_filter_ent (e : Ent) : (entHeaders e).filter isEntHeader = entHeaders e := by
+  rw [List.filter_eq_self]
+  intro p hp
+  simp only [entHeaders, List.mem_map] at hp
+  obtain ⟨kv, _, rfl⟩ := hp
+  rfl
+
+/-- C14, "and nothing else": the entity-supplied header lines of a response are either exactly
+the entity's own (same lines, same order, same multiplicity) or there are none. No header line of
+any other origin carries an `ent` name. -/
+theorem entity_headers_exact (q : Req) (e : Ent) (now : Nat) (r : Resp)
+    (h : serve q e now = .ok r) :
+    r.headers.filter isEntHeader = e.headers.map (fun kv => (HName.ent kv.1, HVal.bytes kv.2)) ∨
+    r.headers.filter isEntHeader = [] := by
+  have hmap : e.headers.map (fun kv => (HName.ent kv.1, HVal.bytes kv.2)) = entHeaders e := rfl
+  rw [hmap]
+  rcases serve_cases h with ⟨hm, _⟩ | ⟨hm, _, err, hp⟩ | ⟨pf, nm, _, _, h3⟩
+  · unfold serve at h
+    simp only [hm, if_true, R.ok.injEq] at h
+    subst h
+    exact .inr (by simp [isEntHeader])
+  · unfold serve at h
+    simp only [hm, if_false, hp, R.ok.injEq] at h
+    subst h
+    exact .inr rfl
+  · rcases h3 with ⟨_, _, hd⟩ | ⟨_, _, _, hd⟩ | ⟨_, _, hr⟩
+    · exact .inr (by rw [hd]; exact entExact_filter_common e now)
+    · exact .inr (by rw [hd]; exact entExact_filter_common e now)
+    · rcases serveRest_cases hr with ⟨_, hd, _⟩ | ⟨_, _, hd, _⟩ | ⟨a, b, _, _, hd, _⟩ | ⟨_, _, hd⟩ |
+        ⟨rs, phs, total, _, _, _, hd, _⟩
+      · refine .inl ?_
+        rw [hd]
+        simp [List.filter_append, entExact_filter_common, entExact_filter_ent, isEntHeader]
+      · refine .inr ?_
+        rw [hd]
+        simp [List.filter_append, entExact_filter_common, isEntHeader]
+      · rw [hd]
+        cases (ifRangeGate e.etag q.ifRange).2
+        · refine .inr ?_
+          simp [List.filter_append, entExact_filter_common, isEntHeader]
+        · refine .inl ?_
+          simp [List.filter_append, entExact_filter_common, entExact_filter_ent, isEntHeader]
+      · exact .inr (by rw [hd]; rfl)
+      · refine .inr ?_
+        rw [hd]
+        simp [List.filter_append, entExact_filter_common, isEntHeader]
+
 end HS
